@@ -33,6 +33,7 @@ def run(rep):
     R.protocol_order(rep)
     R.regex_users(rep)
     R.content_file(rep)
+    R.catalogue_roundtrip(rep)
     R.level_representative(rep)
     c02.analyse(rep, owner_filter=lambda o: o.startswith(("GLOBAL:", "PARAM:its_available/")),
                 rule="no-inplace-on-shared", rels=["reading.py"], only=R.SCOPE["C18"])
